@@ -33,3 +33,50 @@ Proof. exact Refuted.sameAs_noncanonical_asymmetric. Qed.
 Print Assumptions canon_of_canon.
 Print Assumptions inc_canon_refuted.
 Print Assumptions toInt32_refuted.
+
+(* ---- theorems over ALL inputs of the model ---- *)
+From Verif.C05 Require Import Proofs2.
+
+(* 1. one mathematical value has exactly one canonical, well-formed representation *)
+Theorem canon_unique : forall a b, canon a = true -> canon b = true -> wf a = true -> wf b = true ->
+  num_sem a = num_sem b -> a = b.
+Proof. exact Proofs2.canon_unique. Qed.
+
+(* 2. goja's canonicaliser is total, always canonical, and IS the specification-level canonicaliser *)
+Theorem floatToValue_canon : forall f, canon (floatToValue f) = true.
+Proof. exact Proofs2.floatToValue_canon. Qed.
+Theorem floatToValue_eq_canon_of : forall f, floatToValue f = canon_of f.
+Proof. exact Proofs2.floatToValue_eq_canon_of. Qed.
+Theorem toNumeric_canon_id : forall a, canon a = true -> toNumeric a = a.
+Proof. exact Proofs2.toNumeric_canon_id. Qed.
+
+(* 3. intToValue is canonical on the guarded range (full statement refuted above: F9) *)
+Theorem intToValue_canon_partial : forall i, Z.abs i <=? two53 = true -> canon (intToValue i) = true.
+Proof. exact Proofs2.intToValue_canon_partial. Qed.
+
+(* 4. closure: producers routed through floatToValue are canonical for every input; + and ++ on
+      integers under the explicit range guard (unguarded statements refuted above: F7, F9) *)
+Theorem un_canon_float_routed : forall o a, In o (UAbs :: UFloor :: UCeil :: UFround :: USqrt :: nil) ->
+  canon (I_un o a) = true.
+Proof. exact Proofs2.un_canon_float_routed. Qed.
+Theorem bin_canon_float_routed : forall a b, canon (m_max a b) = true /\ canon (m_min a b) = true.
+Proof. exact Proofs2.bin_canon_float_routed. Qed.
+Theorem add_float_canon : forall a g, canon (op_add a (NFlt g)) = true.
+Proof. exact Proofs2.add_float_canon. Qed.
+Theorem add_int_canon_partial : forall x y, Z.abs x <=? two53 = true -> Z.abs y <=? two53 = true ->
+  Z.abs (x + y) <=? two53 = true -> op_add (NInt x) (NInt y) = NInt (x + y) /\ canon (op_add (NInt x) (NInt y)) = true.
+Proof. exact Proofs2.add_int_canon_partial. Qed.
+Theorem inc_int_canon_partial : forall n, Z.abs n <=? two53 = true -> Z.abs (n + 1) <=? two53 = true ->
+  canon (op_inc (NInt n)) = true.
+Proof. exact Proofs2.inc_int_canon_partial. Qed.
+
+Print Assumptions canon_unique.
+Print Assumptions floatToValue_canon.
+Print Assumptions floatToValue_eq_canon_of.
+Print Assumptions toNumeric_canon_id.
+Print Assumptions intToValue_canon_partial.
+Print Assumptions un_canon_float_routed.
+Print Assumptions bin_canon_float_routed.
+Print Assumptions add_float_canon.
+Print Assumptions add_int_canon_partial.
+Print Assumptions inc_int_canon_partial.
